@@ -175,3 +175,25 @@ Fixpoint breads (plens : list N) (st : bst) : list bytes * bfin :=
   end.
 
 Definition binit (src : list bytes) : bst := mkB [] [] src.
+
+(* ---- wsReader.Read (server_tunnel_websocket.go): the rest of the current binary message, else the
+   next message; None = ReadMessage returned an error (connection closed) ---- *)
+Record wst := mkW { wbuf : bytes; wmsgs : list bytes }.
+Definition wread (st : wst) (plen : N) : option (bytes * wst) :=
+  match wbuf st with
+  | _ :: _ => Some (ntake plen (wbuf st), mkW (ndrop plen (wbuf st)) (wmsgs st))
+  | [] =>
+      match wmsgs st with
+      | [] => None
+      | m :: ms => Some (ntake plen m, mkW (ndrop plen m) ms)
+      end
+  end.
+Fixpoint wreads (plens : list N) (st : wst) : list bytes * bool :=   (* outputs, ended *)
+  match plens with
+  | [] => ([], false)
+  | n :: t =>
+      match wread st n with
+      | Some (out, st') => let '(outs, e) := wreads t st' in (out :: outs, e)
+      | None => ([], true)
+      end
+  end.
